@@ -161,6 +161,7 @@ class Unit:
         self.budget_s = budget_s  # wall budget of one exploration task (a subtree); exceeding it is inconclusive
 
 
+DEBUG_POOL = bool(os.environ.get("SYMX_DEBUG_POOL"))
 SLICE_S = 5  # a task that has run this long hands the unexplored rest of its subtree back to the pool
 TASK_BUDGET_S = 1500  # wall budget of one exploration task; check_property lowers it for the quick tier
 _UNITS: list[Unit] = []
@@ -175,6 +176,8 @@ def _res_to_dict(r):
 def _explore_task(task):
     ui, prefixes, export, seed_target = task
     u = _UNITS[ui]
+    if DEBUG_POOL:
+        print("start pid=%d unit=%d prefix=%r" % (os.getpid(), ui, prefixes[0][:40]), file=sys.stderr, flush=True)
     e = Explorer(max_paths=u.max_paths, max_depth=u.max_depth, seed=_SEED, query_timeout_ms=u.query_timeout_ms)
     e.export_limit = export
     e.budget_s = u.budget_s or TASK_BUDGET_S
@@ -188,6 +191,8 @@ def _explore_task(task):
     except BaseException as x:  # harness bug
         res = e.results
         err = "%s: %s\n%s" % (type(x).__name__, x, "".join(traceback.format_tb(x.__traceback__)[-8:]))
+    if DEBUG_POOL:
+        print("end pid=%d unit=%d paths=%d" % (os.getpid(), ui, e.paths), file=sys.stderr, flush=True)
     return {"unit": ui, "results": [_res_to_dict(r) for r in res], "error": err, "paths": e.paths, "queries": e.queries,
             "solver_s": e.solver_time, "wall_s": time.time() - t, "hash_attempts": e.hash_attempts, "exported": e.exported,
             "left": e.work if err is None else []}
@@ -238,12 +243,16 @@ def explore_units(units, seed=0, nproc=None, budget_s=None):
     with ctx.Pool(nproc) as pool:
         def submit(t):
             pending[0] += 1
+            if DEBUG_POOL:
+                print("submit unit=%d prefixes=%d pending=%d" % (t[0], _b.len(t[1]), pending[0]), file=sys.stderr, flush=True)
             pool.apply_async(_explore_task, (t,), callback=done.put, error_callback=done.put)
         for t in tasks:
             submit(t)
         while pending[0]:
             out = done.get()
             pending[0] -= 1
+            if DEBUG_POOL:
+                print("result %s pending=%d" % (("unit=%d paths=%d left=%d err=%s" % (out["unit"], out["paths"], _b.len(out["left"]), bool(out["error"]))) if isinstance(out, dict) else repr(out), pending[0]), file=sys.stderr, flush=True)
             if isinstance(out, BaseException):
                 raise out
             merge(out)
@@ -383,7 +392,7 @@ def check_property(prop, units, tier, seed, *, explanation, assumptions, stubs=(
                    extra_checks=(), design_ref="", diff_sample=40):
     """explore all units, replay candidates, apply known findings, write evidence, return exit code"""
     global TASK_BUDGET_S
-    TASK_BUDGET_S = 400 if tier == "quick" else 1800
+    TASK_BUDGET_S = 150 if tier == "quick" else 1800  # x nproc CPU-seconds per unit: a quick check ends within minutes even when a change makes the path tree explode
     t0 = time.time()
     out = Outcome()
     known = load_known()
